@@ -24,8 +24,8 @@ FORMS = ("list", "fortran", "view", "negview", "f32", "f64", "bool", "int8",
 
 #  which check explores which class drivers (the property that owns the class)
 BY_PROP = {
-    "C05": ["Network", "InteractingNetworks", "SpatialNetwork", "GeoNetwork",
-            "ClimateNetwork"],
+    "C05": ["Network", "InteractingNetworks", "SpatialNetwork", "GeoNetwork"],
+    "C09": ["ClimateNetwork"],
     "C07": ["RecurrencePlot", "RecurrenceNetwork", "CrossRecurrencePlot",
             "JointRecurrencePlot", "JointRecurrenceNetwork",
             "InterSystemRecurrenceNetwork"],
